@@ -264,7 +264,7 @@ DEFAULT_NA = "check not built yet (work in progress; see DESIGN.md section 5 for
 
 m = {
     "version": 1,
-    "setup_cmd": "python3-vt -m compileall -q pyvc contracts native >/dev/null 2>&1; true",
+    "setup_cmd": "(cd lean && timeout 900 lean Theory.lean > Theory.log 2>&1 && echo LEAN-OK >> Theory.log || echo LEAN-FAILED >> Theory.log); python3-vt -m compileall -q pyvc contracts native >/dev/null 2>&1; true",
     "hooks": {
         "guard": "CBI_VERIF",
         "enable": "no source hooks: contracts are sidecar files under /verif/contracts; the guard name is reserved and unused",
